@@ -23065,3 +23065,60 @@ pub mod verif_hooks_reload {
 		}
 	}
 }
+
+/// Verification hooks (feature `_verif_hooks` only); see `ln::verif_hooks`. Sending HTLCs whose
+/// final-hop onion is not what `send_payment` / `send_spontaneous_payment` would build, to exercise
+/// the recipient's acceptance checks.
+#[cfg(feature = "_verif_hooks")]
+pub mod verif_hooks_keysend {
+	use super::*;
+
+	/// Sends `route` as payment `payment_id` for `payment_hash` with `recipient_onion` in the final
+	/// hop's onion and, next to it, `keysend_preimage` exactly as given (it need not hash to
+	/// `payment_hash`, and a payment secret may be present as well).
+	pub fn send_with_keysend_preimage<
+		M: chain::Watch<SP::EcdsaSigner>,
+		T: BroadcasterInterface,
+		ES: EntropySource,
+		NS: NodeSigner,
+		SP: SignerProvider,
+		F: FeeEstimator,
+		R: Router,
+		MR: MessageRouter,
+		L: Logger,
+	>(
+		node: &ChannelManager<M, T, ES, NS, SP, F, R, MR, L>, route: &Route,
+		payment_hash: PaymentHash, recipient_onion: RecipientOnionFields,
+		keysend_preimage: Option<PaymentPreimage>, payment_id: PaymentId,
+	) -> Result<(), String> {
+		let best_block_height = node.best_block.read().unwrap().height;
+		let _persistence_guard = PersistenceNotifierGuard::notify_on_drop(node);
+		let session_privs = node
+			.pending_outbound_payments
+			.add_new_pending_payment(
+				payment_hash,
+				recipient_onion.clone(),
+				payment_id,
+				keysend_preimage,
+				route,
+				None,
+				&node.entropy_source,
+				best_block_height,
+				None,
+			)
+			.map_err(|e| format!("{:?}", e))?;
+		crate::ln::outbound_payment::verif_hooks_outbound::pay_route_raw(
+			&node.pending_outbound_payments,
+			route,
+			payment_hash,
+			&recipient_onion,
+			keysend_preimage,
+			payment_id,
+			&session_privs,
+			&node.node_signer,
+			best_block_height,
+			&|args| node.send_payment_along_path(args),
+		)
+		.map_err(|e| format!("{:?}", e))
+	}
+}
